@@ -158,7 +158,7 @@ func c14Run(c *lib.Ctx, scaleDown bool) {
 		release := make(chan struct{})
 		var once sync.Once
 		held := make(chan struct{})
-		x.cl.Loc.HoldWrite = func(path string) {
+		x.cl.Loc.SetHoldWrite(func(path string) {
 			if filepath.Ext(path) == ".snapshot" {
 				first := false
 				once.Do(func() { first = true })
@@ -167,7 +167,7 @@ func c14Run(c *lib.Ctx, scaleDown bool) {
 					<-release
 				}
 			}
-		}
+		})
 		x.logf("savepoint requested; its publication is held while the next periodic checkpoint completes at the operators")
 		// the source runners' acknowledgements of the NEXT checkpoint are held too, so that it cannot complete at
 		// the job (and have the savepoint's checkpoint dropped by retention) before the artifact is written
@@ -292,7 +292,7 @@ func c14Run(c *lib.Ctx, scaleDown bool) {
 		overtakeFolded := err == nil && r.Intn(2) == 0
 		if overtakeFolded {
 			var wOnce sync.Once
-			x.cl.Loc.HoldWrite = func(path string) {
+			x.cl.Loc.SetHoldWrite(func(path string) {
 				if filepath.Ext(path) == ".snapshot" {
 					first := false
 					wOnce.Do(func() { first = true })
@@ -301,7 +301,7 @@ func c14Run(c *lib.Ctx, scaleDown bool) {
 						<-wRelease
 					}
 				}
-			}
+			})
 		}
 		x.cl.Lock()
 		x.cl.HoldOpAck = nil
@@ -329,7 +329,7 @@ func c14Run(c *lib.Ctx, scaleDown bool) {
 				}
 			case <-time.After(5 * time.Second):
 			}
-			x.cl.Loc.HoldWrite = nil
+			x.cl.Loc.SetHoldWrite(nil)
 			close(wRelease)
 		}
 	}
